@@ -144,6 +144,43 @@ def reference_main():
     json.dump(out, sys.stdout)
 
 
+def true_cli(text, target, workdir):
+    """the command line in a process of its own with the logging configuration the real potable sets up (the in-process
+    run_cli of the harness silences logging): bytes of the output file, exit status"""
+    inp, outp = os.path.join(workdir, "cli-%s.ini" % target), os.path.join(workdir, "cli-%s.out" % target)
+    with open(inp, "w") as f:
+        f.write(PRE % target + text)
+    code = ("import sys; sys.path.insert(0, %r); from lib import boot; boot.boot(quiet=False); "
+            "from atsim.potentials.tools.potable import main; sys.argv = ['potable', %r, %r]; main()" % (boot.VERIF, inp, outp))
+    p = subprocess.run([sys.executable, "-W", "ignore", "-c", code], cwd=boot.VERIF, stdout=subprocess.PIPE, stderr=subprocess.PIPE, universal_newlines=True, timeout=600)
+    data = open(outp, "rb").read() if os.path.exists(outp) else b""
+    return data, p.returncode, p.stderr[-300:]
+
+
+def around_cli(text, target, workdir):
+    """one process, logging untouched: tabulate through the API, run the command line's main() on the same model, tabulate
+    through the API again - three outputs of one model"""
+    inp, outp = os.path.join(workdir, "around-%s.ini" % target), os.path.join(workdir, "around-%s.out" % target)
+    with open(inp, "w") as f:
+        f.write(PRE % target + text)
+    code = ("import sys, io, hashlib; sys.path.insert(0, %r); from lib import boot; boot.boot(quiet=False)\n"
+            "from atsim.potentials.config import Configuration\n"
+            "from atsim.potentials.tools.potable import main\n"
+            "def api():\n"
+            "    o = io.StringIO(); Configuration().read(open(%r)).write(o); return hashlib.sha256(o.getvalue().encode()).hexdigest()\n"
+            "a = api()\n"
+            "sys.argv = ['potable', %r, %r]\n"
+            "try:\n    main()\nexcept SystemExit:\n    pass\n"
+            "b = hashlib.sha256(open(%r, 'rb').read()).hexdigest()\n"
+            "c = api()\n"
+            "sys.stdout.write('SHAS %%s %%s %%s\\n' %% (a, b, c))\n" % (boot.VERIF, inp, inp, outp, outp))
+    p = subprocess.run([sys.executable, "-W", "ignore", "-c", code], cwd=boot.VERIF, stdout=subprocess.PIPE, stderr=subprocess.PIPE, universal_newlines=True, timeout=600)
+    for ln in p.stdout.splitlines():
+        if ln.startswith("SHAS "):
+            return ln.split()[1:], ""
+    return None, p.stderr[-400:]
+
+
 def api_energy_fn():
     import math
 
@@ -344,6 +381,34 @@ def main(prop, tier, seed):
             for clause, excel, same_cells, msg, h in r["bad"]:
                 run.violation(dict(engine="session", clause=clause, excel=excel, same_cells=same_cells), "[%s] %s" % (clause, msg), dict(history=h))
         run.replayed += len(hist)
+        # the same model through the real command line (own process, logging as potable configures it) gives the bytes the API gives
+        import tempfile, shutil
+        d = tempfile.mkdtemp(prefix="verif-truecli-")
+        try:
+            for mid in sorted(MODELS):
+                for target in MODELS[mid]["targets"]:
+                    if target.startswith("excel"):
+                        continue
+                    data, rc, err = true_cli(MODELS[mid]["text"], target, d)
+                    run.evaluations += 1
+                    if rc != 0 or hashlib.sha256(data).hexdigest() != base["%d:%s" % (mid, target)]["sha"]:
+                        a = base["%d:%s" % (mid, target)]["header"].splitlines()
+                        b = data[:400].decode("latin1").splitlines()
+                        first = next(("line %d: %r vs %r" % (i + 1, x, y) for i, (x, y) in enumerate(zip(a, b)) if x != y), err.strip().splitlines()[-1] if err.strip() else "")
+                        run.violation(dict(engine="session", clause="cli-vs-api", excel=False, same_cells=False, model=str(mid)),
+                                      "[cli-vs-api] model %d for %s: the potable command line (exit status %s) and Configuration.read + write give different bytes (%s)" % (mid, target, rc, first), dict(model=mid, target=target))
+            for mid, target in ((2, "LAMMPS"), (2, "GULP"), (1, "setfl"), (4, "DL_POLY_EAM_fs")):
+                shas, err = around_cli(MODELS[mid]["text"], target, d)
+                run.evaluations += 3
+                want = base["%d:%s" % (mid, target)]["sha"]
+                if shas is None:
+                    run.machinery("around-cli process failed: %s" % err)
+                elif any(x != want for x in shas):
+                    which = [n for n, x in zip(("API before the command line ran", "the command line", "API after the command line ran"), shas) if x != want]
+                    run.violation(dict(engine="session", clause="cli-vs-api", excel=False, same_cells=False, model=str(mid)),
+                                  "[cli-vs-api] model %d for %s in one process: %s differ(s) from the fresh-process reference" % (mid, target, ", ".join(which)), dict(model=mid, target=target))
+        finally:
+            shutil.rmtree(d, ignore_errors=True)
         napi = api_histories(run)
         run.evaluations += napi
         run.notes["api_shared_callable_histories"] = napi
